@@ -225,6 +225,18 @@ def good_tail(rng, cfg, as4):
     return out
 
 
+def drain_now(w):
+    """Run every call that is due at the current virtual instant (zero-delay timers, deferred
+    writes): the reactor's next turn(s), without letting time pass."""
+    n = 0
+    while n < 20:
+        due = [c for c in w.reactor.due() if c.time <= w.now()]
+        if not due:
+            break
+        w.apply(["fire", 0])
+        n += 1
+
+
 def reports_in(w, pos):
     return [list(e[3:]) for e in w.log[pos:] if e[2] == "h" and e[3] in REPORTS]
 
@@ -301,6 +313,7 @@ class HostileCtx(object):
         for t in tail_hex:
             pos = len(wc.log)
             wc.apply(["send", 0, t, []])
+            drain_now(wc)
             ctl_reports.append(reports_in(wc, pos))
         ctl_alive = wc.state()
         self.account(wc)
@@ -327,6 +340,7 @@ class HostileCtx(object):
             pos = len(w.log)
             st_before = w.state()
             w.apply(["send", 0, blob.hex(), []])
+            drain_now(w)
             escapes(pos, "burst")
             reps = reports_in(w, pos)
             nfr = len(frames_hex)
@@ -354,6 +368,7 @@ class HostileCtx(object):
                     break
                 pos = len(w.log)
                 w.apply(["send", 0, fh, []])
+                drain_now(w)
                 self.stats["hostile_frame:" + kind] += 1
                 escapes(pos, kind)
                 reps = reports_in(w, pos)
@@ -395,6 +410,7 @@ class HostileCtx(object):
             for i, t in enumerate(tail_hex):
                 pos = len(w.log)
                 w.apply(["send", 0, t, []])
+                drain_now(w)
                 escapes(pos, "tail")
                 reps = reports_in(w, pos)
                 if i < len(ctl_reports) and reps != ctl_reports[i]:
